@@ -1322,6 +1322,10 @@ def check(prop, tier, only=None):
     extra = {
         "logical_steps": {"worklist_pops": report.stats["pops"], "requeues": report.stats["requeues"]},
         "schedules_explored": report.stats["executions"],
+        "seeds": {"distinct_case_seeds": report.stats["instances"] + report.stats["series_cases"] + report.stats["data_cases"],
+                  "per_hour": int((report.stats["instances"] + report.stats["series_cases"] + report.stats["data_cases"])
+                                  / max(1e-9, __import__("time").time() - report.t0) * 3600)},
+        "simulated_time": "none: the arbitration loop has no clock; progress is counted in worklist pops",
         "scheduler_reached": scheduler_reached,
         "real_vs_stub": {
             "real": ["spowtd.classify (disambiguate_matching, find_stable_matching, classify_intervals)",
